@@ -1798,6 +1798,57 @@ func pkgOfKey(k string) string {
 
 // ---------------------------------------------------------------------------
 
+// constItem resolves a `const` directive to a Definition holding the constant's value.
+func (g *gen) constItem(key string, allFuncs []*types.Func) *item {
+	var c *types.Const
+	name := strings.NewReplacer(".", "_", ":", "_").Replace(key)
+	if i := strings.Index(key, ":"); i >= 0 {
+		for _, fn := range allFuncs {
+			if funcKey(fn) != key[:i] {
+				continue
+			}
+			p := g.w.funcPkg[fn]
+			ast.Inspect(g.w.funcDecl[fn], func(n ast.Node) bool {
+				if id, ok := n.(*ast.Ident); ok && id.Name == key[i+1:] {
+					if o, ok := p.info.Defs[id].(*types.Const); ok {
+						c = o
+					}
+				}
+				return true
+			})
+		}
+	} else if j := strings.Index(key, "."); j >= 0 {
+		if p := g.w.short[key[:j]]; p != nil {
+			c, _ = p.pkg.Scope().Lookup(key[j+1:]).(*types.Const)
+		}
+	}
+	if c == nil {
+		return nil
+	}
+	it := &item{kind: kGlobal, name: name, deps: map[string]bool{}, goKey: "const " + key, explicit: true}
+	func() {
+		defer func() {
+			if r := recover(); r != nil {
+				if u, ok := r.(unsupported); ok {
+					it.err = u.msg
+					return
+				}
+				panic(r)
+			}
+		}()
+		ty := "Z"
+		if isFloat(c.Type()) {
+			ty = "float"
+		} else if isBool(c.Type()) {
+			ty = "bool"
+		}
+		it.text = fmt.Sprintf("Definition %s : %s := %s.\n", name, ty, constTerm(c.Val(), c.Type()))
+		it.hash = fmt.Sprintf("const:%s", c.Val().ExactString())
+	}()
+	g.items[name] = it
+	return it
+}
+
 type cfgEntry struct {
 	unit string
 	pat  string
@@ -1876,6 +1927,7 @@ func main() {
 		allFuncs = append(allFuncs, fn)
 	}
 	sort.Slice(allFuncs, func(i, j int) bool { return w.funcDecl[allFuncs[i]].Pos() < w.funcDecl[allFuncs[j]].Pos() })
+<<<<<<< HEAD
 	type wantVar struct {
 		v    *types.Var
 		unit string
@@ -1896,6 +1948,19 @@ func main() {
 			}
 			if !matched {
 				g.notes = append(g.notes, "MISSING "+key)
+=======
+	constUnits := map[string]string{}
+	for _, e := range entries {
+		matched := false
+		if strings.HasPrefix(e.pat, "const ") {
+			// `const pkg.Name` (package-level) or `const pkg.Func:name` / `const pkg.Type.Method:name`
+			// (function-local): emitted as a Definition so that theorems consume the source's value.
+			key := strings.TrimSpace(strings.TrimPrefix(e.pat, "const "))
+			if it := g.constItem(key, allFuncs); it != nil {
+				constUnits[it.goKey] = e.unit
+			} else {
+				g.notes = append(g.notes, "MISSING "+e.pat)
+>>>>>>> codec
 			}
 			continue
 		}
@@ -1916,6 +1981,7 @@ func main() {
 		}
 	}
 	unitOfKey := map[string]string{}
+<<<<<<< HEAD
 	for _, wv := range wantVars {
 		holder := &item{deps: map[string]bool{}}
 		n := g.global(wv.v, holder)
@@ -1923,6 +1989,10 @@ func main() {
 		if _, ok := unitOfKey[g.items[n].goKey]; !ok {
 			unitOfKey[g.items[n].goKey] = wv.unit
 		}
+=======
+	for k, u := range constUnits {
+		unitOfKey[k] = u
+>>>>>>> codec
 	}
 	for _, wn := range wants {
 		k := funcKey(wn.fn)
